@@ -237,12 +237,14 @@ CLAIMED = {
              "after the replies were written; C12_empty_read_means_end_of_stream / C12_poll_input_cases - a handler read returns Ok(0) into a "
              "non-empty buffer only at the stream's end, a dry transport yields UnexpectedEof or the transport's error; C12_write_all / "
              "C12_writer_prefix - a failed write leaves only a prefix of the bytes of that write, i.e. a prefix of a well-formed record "
-             "sequence, and is reported. 'Nothing is written after a failed write' for propagating handlers is decided by the correspondence "
-             "check + oracle (a write error / zero write / ConnectionAborted-kind error at every write index followed by counted accept-all "
-             "calls; handlers with propagating reads); it exposed finding F4 (repaired, /repo b370518; replay corpus/C12). Also: EOF at every "
+             "sequence, and is reported; C12_nothing_after_failed_write - for handlers that propagate I/O errors (every read `read(..).await?`, "
+             "writes return their error) the first failing write call (zero-length write or write error) is the LAST write call the task "
+             "makes, for every connection. The ConnectionAborted-kind write error is covered by the correspondence check + oracle (fault at "
+             "every write index followed by counted accept-all calls; handlers with propagating reads), which exposed finding F4 (repaired, "
+             "/repo b370518; replay corpus/C12). Also: EOF at every "
              "byte offset of short connections, a read error at every read index.",
         design="6/C12, 13.3", technique="Coq proof (totality of the connection model under all fault scripts; parse_request composed with the request-parser theorems; read/write accounting) + exhaustive fault-position enumeration per scripted connection through model and crate",
-        note="'nothing written after a failed write' at run-loop level by correspondence + oracle (judged on runs where the handler swallowed no error); single task."),
+        note="for the ConnectionAborted-kind write error the nothing-written-after clause is by correspondence + oracle (judged on runs in which the handler swallowed no error); after a real client abort, a reply flush that fails with that very kind during close is still taken for the abort (outside C12's traffic; DESIGN 13.3); single task."),
     "C13": dict(
         text="Proof on the token model (Async/Tokens.v: permit counter + event-listener queue with notify(1) being a no-op while a listener is already "
              "notified, notified listeners passing the notification on when dropped, the acquire future trying the counter first - all modelled from "
@@ -260,12 +262,14 @@ CLAIMED = {
              "when no token is alive at its liveness check - never earlier (C14_ready_iff_done), and no lost wake-up: after a Pending poll the "
              "registered waker has been invoked as soon as the last token is gone, whether the final drop landed between the liveness check and "
              "the registration, between registration and the release of the temporary reference, or later (C14_no_lost_wakeup). Connection side: "
-             "run_loop consults the stop listener before starting a request (C14_nothing_new); 'in-flight requests complete' and 'idle connections "
-             "stop without reading' are decided by the correspondence check (shutdown requested before every scheduling step k of Pending-heavy "
+             "run_loop consults the stop listener before starting a request (C14_nothing_new); in-flight requests complete: C14_inflight_handler_completes / "
+             "C14_inflight_close_completes / C14_blocked_request_keeps_waiting - a handler run and Request::close behave identically (same "
+             "result, bytes read and written, observations) whenever and however often shutdown is requested meanwhile; 'idle connections "
+             "stop without reading' is decided by the correspondence check (shutdown requested before every scheduling step k of Pending-heavy "
              "connections, idle clients woken by shutdown) + oracle. The wait-group windows are forced on the real crate through the "
              "cfg(fastcgi_server_verif) hook (/repo ed42bbf).",
         design="6/C14, 13.4", technique="Coq proof (wait-group transition system, all window placements) + differential execution with hook-forced interleavings and shutdown injected at every scheduling step",
-        note="Arc/Weak/AtomicWaker modelled; select polls its left future first (modelled); in-flight-completes clause by correspondence + oracle."),
+        note="Arc/Weak/AtomicWaker modelled; select polls its left future first (modelled); idle-connection clause by correspondence + oracle."),
 }
 
 PENDING = {}
